@@ -160,6 +160,8 @@ def main(chk):
       return key, f'gradient {flat} differs from jax.grad of the functional form {ref}'
     return None
 
+  alias_calls = [0]
+
   def replay_alias(case):
     cfg = case['cfg']
     key = f"C08:alias:{cfg['tr']}:{cfg['s1']}:{cfg['s2']}"
@@ -172,8 +174,15 @@ def main(chk):
     def f3(c, a, b, x):
       return c, jnp.sum(a.w.value) + jnp.sum(b.w.value) + x[0]
 
+    alias_calls[0] += 1
+    overl = alias_calls[0] % 2 == 0      # rendering: overlapping filters - the Params' axis comes from the *first* matching filter
+
     def spec(v):
-      return None if v == 9 else nnx.StateAxes({...: v})
+      if v == 9:
+        return None
+      return nnx.StateAxes({nnx.Param: v, ...: None}) if overl else nnx.StateAxes({...: v})
+    if overl:
+      key += ':overlapping-filters'
     xs = jnp.ones((n, 3), jnp.int32)
     try:
       if cfg['tr'] == 'vmap':
@@ -279,6 +288,66 @@ def main(chk):
       if not np.array_equal(np.asarray(ys), ref_y) or vals != [1 + 100.0 * i for i in range(k)] or np.asarray(m.d['z'].value).tolist() != [1.0] * n:
         chk.violation(key, f'ys {np.asarray(ys).tolist()} (per-index reference {ref_y.tolist()}); items[i][1] afterwards {vals}; counter '
                            f'{np.asarray(m.d["z"].value).tolist()}', {})
+
+  # ---- several broadcast (in_axes None) array arguments, positional and inside containers: each reaches the body as itself
+  def bc_body(c, x, b1, b2, pair):
+    y = c * 2 + x + 10 * b1 - 100 * b2 + 1000 * pair['p'] - 10000 * pair['q'][0]
+    return y, y
+  xs = jnp.arange(4, dtype=jnp.int32)
+  b1, b2, pair = jnp.asarray(3, jnp.int32), jnp.asarray(5, jnp.int32), {'p': jnp.asarray(7, jnp.int32), 'q': (jnp.asarray(2, jnp.int32),)}
+  c_ref, ys_ref = 1, []
+  for t in range(4):
+    c_ref = c_ref * 2 + t + 10 * 3 - 100 * 5 + 1000 * 7 - 10000 * 2
+    ys_ref.append(c_ref)
+  for form in (0, 1):
+    key = f'C08:scan:several-broadcast-arrays:{"factory-form" if form else "direct"}'
+    chk.count(key)
+    try:
+      kw = dict(in_axes=(nnx.Carry, 0, None, None, None), out_axes=(nnx.Carry, 0))
+      c_out, ys = (nnx.scan(**kw)(bc_body) if form else nnx.scan(bc_body, **kw))(jnp.asarray(1, jnp.int32), xs, b1, b2, pair)
+      vy = nnx.vmap(lambda x, b1, b2, pair: x + 10 * b1 - 100 * b2 + 1000 * pair['p'] - 10000 * pair['q'][0], in_axes=(0, None, None, None))(xs, b1, b2, pair)
+      if int(c_out) != c_ref or np.asarray(ys).tolist() != ys_ref:
+        chk.violation(key, f'final carry {int(c_out)}, ys {np.asarray(ys).tolist()}; the Python loop gives {c_ref}, {ys_ref} (broadcast arguments mixed up)', {})
+      if np.asarray(vy).tolist() != [t + 30 - 500 + 7000 - 20000 for t in range(4)]:
+        chk.violation(key.replace('scan', 'vmap'), f'vmap with several broadcast arrays returns {np.asarray(vy).tolist()}', {})
+    except Exception as e:
+      chk.violation(key, f'raised {type(e).__name__}: {str(e)[:200]}', {})
+
+  # ---- the mapped / scanned / differentiated function removes an attribute (a one-shot buffer) from its Module argument: the
+  # caller's object ends as the per-index / loop reference leaves it - without the attribute - and a second call sees that
+  class OneShot(nnx.Module):
+    def __init__(self, n):
+      self.w = nnx.Param(jnp.ones((n,), jnp.float32) * 2.0)
+      self.pending = nnx.BatchStat(jnp.ones((n,), jnp.float32) * 5.0)
+
+  def consume(m, x):
+    extra = 0.0
+    if hasattr(m, 'pending'):
+      extra = m.pending.value
+      del m.pending
+    return m.w.value * x + extra
+  for tr in ('vmap', 'scan', 'grad'):
+    key = f'C08:{tr}:function-deletes-an-attribute'
+    chk.count(key)
+    try:
+      m = OneShot(3)
+      xs3 = jnp.asarray([1.0, 2.0, 3.0])
+      if tr == 'vmap':
+        call = lambda: nnx.vmap(consume, in_axes=(nnx.StateAxes({...: 0}), 0), out_axes=0)(m, xs3)
+      elif tr == 'scan':
+        call = lambda: nnx.scan(lambda c, mm, x: (c, consume(mm, x)), in_axes=(nnx.Carry, nnx.StateAxes({...: 0}), 0), out_axes=(nnx.Carry, 0))(0.0, m, xs3)[1]
+      else:
+        call = lambda: nnx.grad(lambda mm: jnp.sum(consume(mm, xs3)))(m)['w'].value
+      first = np.asarray(call()).tolist()
+      gone = not hasattr(m, 'pending')
+      second = np.asarray(call()).tolist()
+      want1 = [7.0, 9.0, 11.0] if tr != 'grad' else [1.0, 2.0, 3.0]
+      want2 = [2.0, 4.0, 6.0] if tr != 'grad' else [1.0, 2.0, 3.0]
+      if not gone or first != want1 or second != want2:
+        chk.violation(key, f'first call {first} (reference {want1}); attribute removed on the caller\'s object: {gone}; second call {second} '
+                           f'(reference {want2})', {})
+    except Exception as e:
+      chk.violation(key, f'raised {type(e).__name__}: {str(e)[:200]}', {})
 
   total = 0
   for mode in ('vmap', 'scan', 'grad', 'alias', 'carry2'):
